@@ -69,12 +69,12 @@ var propMeta = map[string]struct {
 		[]string{"aliasing is observed through answers, Marshal output and the race lane, not by pointer inspection",
 			"openacid/low bitstr.StrCmpUpto patched in the scratch copy", "a clean batch is evidence, not proof"}},
 	"C05": {"exploration",
-		"one evaluation = one instance lifecycle: 1..3 generated inputs built under identity and two PRNG map-iteration permutations (byte equality, Size, proto.Marshal agreement), streams written to and read back from the simulated disk, then a history of length 1..4 over {Unmarshal, proto.Unmarshal, Reset, legacy load, failed load} on an instance that starts fresh / built / loaded; after every successful current-format load the instance is compared with its source on the full unit battery and re-marshalled. Non-trivial = the map-order seam was consulted with >= 2 keys under two different permutations, or a checked load went into an instance holding different content; distinct = distinct (shape fingerprint, history string, start state) tuples over non-trivial runs.",
+		"one evaluation = one instance lifecycle: 1..3 generated inputs built under identity and two PRNG map-iteration permutations (byte equality, Size, proto.Marshal agreement), streams written to and read back from the simulated disk, then a history of length 1..4 over {Unmarshal, proto.Unmarshal, Reset, legacy load, failed load} on an instance that starts fresh / built / loaded; after every successful current-format load the instance is compared with its source on the full unit battery and re-marshalled; after every successful load of an archived stream the instance is compared (answers, Marshal bytes, proto.Size) with a fresh instance given the same bytes and its Marshal output is round-tripped. Non-trivial = the map-order seam was consulted with >= 2 keys under two different permutations, or a checked load went into an instance holding different content; distinct = distinct (shape fingerprint, history string, start state) tuples over non-trivial runs.",
 		[]string{"clause (a) 'answers identically' is input sampling, used as the oracle of the history runs; it is not an exhaustive statement over tries",
 			"map order is owned only inside slim's packages (dependencies keep the runtime's order)",
 			"openacid/low bitstr.StrCmpUpto patched in the scratch copy", "a clean batch is evidence, not proof"}},
 	"C07": {"fault_enumeration",
-		"one evaluation = one fault execution: a valid stream (generated current-format or archived legacy) is cut at one byte offset (writer crash, strict prefix survives) or relabelled with one foreign version string, then loaded through st.Unmarshal or proto.Unmarshal into an instance with a prior state drawn from {fresh, built, loaded, legacy-loaded, reset, previously rejected}; oracle: error (ErrIncompatible for versions), no panic, lookups and scans empty afterwards. Non-trivial = cut > 0 into an instance that held content, or a cut inside the 2nd/3rd section of a three-section stream, or a version fault on an instance that held content; distinct = distinct (stream id, fault, prior-state kind, entry point).",
+		"one evaluation = one fault execution: a valid stream (generated current-format or archived legacy) is cut at one byte offset (writer crash, strict prefix survives) or relabelled with one foreign version string, then loaded through st.Unmarshal or proto.Unmarshal into an instance with a prior state drawn from {fresh, built, loaded, legacy-loaded, reset, previously rejected}; oracle: error (ErrIncompatible for versions), no panic, lookups and scans empty afterwards. In 60% of the scenarios 1-3 of the faults are executed once more by tasks of the seeded scheduler next to 1-2 loads of the complete stream (concurrent restart, separate instances) and again alone afterwards; those executions are evaluations too. Non-trivial = cut > 0 into an instance that held content, or a cut inside the 2nd/3rd section of a three-section stream, or a version fault on an instance that held content; distinct = distinct (stream id, fault, prior-state kind, entry point).",
 		[]string{"within one stream the cut sweep is exhaustive (quick: streams <= 4 KiB; thorough: <= 64 KiB) and boundary-biased plus sampled above; across streams and prior states it is seeded sampling",
 			"only truncation and version relabelling are injected: the format has no checksum and the property promises nothing about other corruption",
 			"openacid/low bitstr.StrCmpUpto patched in the scratch copy"}},
